@@ -129,6 +129,7 @@ pub fn run(cfg: &RunCfg) -> Ctx {
         all.floor(&format!("kind.{}", k), 10);
     }
     all.floor("vec.empty", 3);
+    all.floor("vec.forwarded_details_key", 5);
     all.floor("vec.repeated_kind", 10);
     all.floor("set.empty", 1);
     all.floor("retry.beyond_i64_nanos", 5);
@@ -181,8 +182,18 @@ fn vec_case(rng: &mut Rng, ctx: &mut Ctx) {
     }
     let with_md = rng.bool();
     let meta = gen_meta(rng, 3, false);
+    // metadata copied over from an upstream response (a gateway) may itself carry a
+    // `grpc-status-details-bin` entry: the details of *this* status are still the ones attached
+    // (only when there is something attached: a status without details writes no entry of its own,
+    // and then the forwarded entry is simply what the caller chose to send)
+    let mut meta_sent = meta.clone();
+    if with_md && n >= 1 && rng.chance(1, 4) {
+        let upstream = Status::with_error_details_vec(Code::Aborted, "upstream", vec![gen_detail(rng, 3)]);
+        meta_sent.push(("grpc-status-details-bin".to_string(), crate::gen::MVal::Bin(upstream.details().to_vec())));
+        ctx.count("vec.forwarded_details_key");
+    }
     let st = if with_md {
-        Status::with_error_details_vec_and_metadata(code, message.clone(), details.clone(), build_meta(&meta))
+        Status::with_error_details_vec_and_metadata(code, message.clone(), details.clone(), build_meta(&meta_sent))
     } else {
         Status::with_error_details_vec(code, message.clone(), details.clone())
     };
